@@ -129,3 +129,35 @@ Theorem C08_streams_get_sent_reservations_exactly_once :
     cyields (clog _ (xb s)) = firstn (length (cyields (clog _ (xb s)))) (accepted_of (log (ring (qx s)))).
 Proof. exact chan_reserve_streams_exactly_once. Qed.
 Print Assumptions C08_streams_get_sent_reservations_exactly_once.
+
+(* ---- slot conservation of the zero-copy atomic channel WITH its reserve API (Chan/ChanZXConserve.v).  Discipline on the reservation NAMES
+   (`zx_wf`, checkable along the run): a name is reserved only while it is free, and nobody starts a send / cancel of a name that somebody is
+   sending or cancelling.  Then, in every state of every run, each slot id is in exactly one of FIVE places: free list, id ring, a
+   consumer's hands, in transit (base machine or a send-reserved / cancel in progress), or RESERVED under one name ---- *)
+From Coq Require Import Permutation.
+From RM Require Import PoolRun ZcConserve ChanZXConserve.
+Theorem C08_zero_copy_atomic_reserved_slots_conserved :
+  forall N, 0 < N -> forall M k ws wr evs, zx_wf N M k ws wr evs ->
+    let s := zx_run N M k ws wr evs in let x := zq st s in
+    exists ths ks, NoDup ths /\ NoDup ks /\
+      (forall t, ~ In t ths -> heldl x t = [] /\ transl x t = [] /\ ltransl s t = []) /\
+      (forall j, In j ks <-> (exists id, zres _ s j = Some id) /\ at_rest (zthr _ s) j) /\
+      Permutation (ids_upto N) (inring (ua _ x) ++ inring (ub _ x) ++ flat_map (heldl x) ths ++ flat_map (transl x) ths
+                                ++ flat_map (ltransl s) ths ++ flat_map (resl (zres _ s)) ks).
+Proof. exact zx_slots_conserved. Qed.
+Print Assumptions C08_zero_copy_atomic_reserved_slots_conserved.
+
+(* no leak: with nothing in progress and r reservations outstanding, free slots + pending events = N - r (= N once every reservation was
+   sent or cancelled); two names never hold the same slot; the publication of a reserved slot never finds the id ring full *)
+Theorem C08_zero_copy_atomic_reservations_leak_nothing :
+  forall N, 0 < N -> forall M k ws wr evs, zx_wf N M k ws wr evs ->
+    let s := zx_run N M k ws wr evs in let x := zq st s in
+    (forall t, ZC.cthr _ (zb _ s) t = ZC.XIdle) -> (forall t, zthr _ s t = ZN) ->
+    (forall t, uheld _ x t = None) /\
+    (exists ks, NoDup ks /\ (forall j, In j ks <-> exists id, zres _ s j = Some id) /\
+       (tail (ua _ x) - head (ua _ x)) + (tail (ub _ x) - head (ub _ x)) = N - Z.of_nat (length ks) /\
+       Permutation (ids_upto N) (inring (ua _ x) ++ inring (ub _ x) ++ flat_map (resl (zres _ s)) ks)) /\
+    ((forall j, zres _ s j = None) -> (tail (ua _ x) - head (ua _ x)) + (tail (ub _ x) - head (ub _ x)) = N /\
+                                      Permutation (ids_upto N) (inring (ua _ x) ++ inring (ub _ x))).
+Proof. exact zx_no_leak. Qed.
+Print Assumptions C08_zero_copy_atomic_reservations_leak_nothing.
